@@ -24,6 +24,7 @@ def gen(rng, tier, i):
     p.cfg('Port', '4000:telnet')
     p.opt('epoll_seed', rng.randint(1, 1 << 30))
     err_class = rng.random() < 0.25
+    clock_steps = rng.random() < 0.2
     nid = [0]
     owners = ['me']
     lines = []
@@ -82,6 +83,11 @@ def gen(rng, tier, i):
             cmd(('dest ' if rng.random() < 0.6 else 'reload ') + o)
         elif r < 0.9:
             g = rng.random()
+            if clock_steps and rng.random() < 0.25:
+                # somebody sets the wall clock back (a time server correction, a restored snapshot) - or far ahead
+                back = rng.random() < 0.75
+                n = rng.choice((1, 2, 5, 31, 32, 33, 100, 3600, 2000000))
+                p.cycle('adv %d' % ((-n if back else n) * 1000000))
             if g < 0.3: p.cycle(tick(1000000))
             elif g < 0.7: p.cycle(tick(2000000))
             elif g < 0.8: p.cycle(tick(3000000))
@@ -105,6 +111,17 @@ def check(plan, res):
     v = generic_crash_violations(PROP, res)
     if v: return v
     evs = res.events
+    # The reference clock is the driver clock as LPC sees it, made monotonic: when the wall clock is set back by D seconds the
+    # reference stands still for that step and runs on from there (a call_out is owed its delay in seconds that passed, and
+    # no tick with that many seconds passed may go by without it).  mono[idx] = reference time of the record at idx.
+    mono = {}; prevT = None; off = 0
+    for idx, e in enumerate(evs):
+        if e.kind != 'R': continue
+        m = re.search(r' t=(\d+)', e.rest)
+        if not m: continue
+        T = int(m.group(1))
+        if prevT is not None and T < prevT: off += prevT - T
+        prevT = T; mono[idx] = T + off
     # tick times: every tick step cycle -> driver time as reported by the clock object's heart beat (or any record in that cycle)
     ticks = []      # (event idx of first record in the tick cycle, cycle, T)
     tick_cycles = set(e.cycle for e in evs if e.kind == 'step' and re.match(r'&?step (tick|stall) ', e.rest))
@@ -114,7 +131,7 @@ def check(plan, res):
             m = re.search(r' t=(\d+)', e.rest)
             w = e.rest.split(' ')
             if m and w[0] in ('HB', 'CO'):
-                ticks.append((idx, e.cycle, int(m.group(1)))); seen.add(e.cycle)
+                ticks.append((idx, e.cycle, mono[idx])); seen.add(e.cycle)
     entries = {}    # id -> dict
     order = []
     gone = {}       # owner tag -> event idx of destruct
@@ -124,12 +141,12 @@ def check(plan, res):
         w = e.rest.split(' ')
         kv = dict(t.split('=', 1) for t in w if '=' in t)
         if w[0] == 'COSET':
-            d = int(kv['d']); t0 = int(kv['t'])
+            d = int(kv['d']); t0 = mono[idx]
             entries[w[2]] = {'owner': w[1], 'id': w[2], 'due': t0 + max(d, 1), 'd': d, 't0': t0, 'idx': idx, 'cycle': e.cycle, 'handle': int(kv['h']),
                              'fn': kv.get('fn', 'x'), 'fires': [], 'removed': None, 'ambig': False, 'incb': False}
             order.append(w[2])
         elif w[0] == 'CO':
-            if w[2] in entries: entries[w[2]]['fires'].append((idx, e.cycle, int(kv['t'])))
+            if w[2] in entries: entries[w[2]]['fires'].append((idx, e.cycle, mono[idx]))
             else: v.append(Violation(PROP, 'phantom', 'call_out %s fired but was never scheduled' % w[2], PROP + '/fired/never-scheduled'))
         elif w[0] in ('DEST', 'QUIT', 'RELOAD') and len(w) > 1:
             gone.setdefault(w[1], idx)
@@ -141,7 +158,7 @@ def check(plan, res):
         w = e.rest.split(' ')
         kv = dict(t.split('=', 1) for t in w if '=' in t)
         if w[0] in ('RCO', 'FCO'):
-            en = entries.get(w[2]); ret = int(kv['ret']); tc = int(kv['t'])
+            en = entries.get(w[2]); ret = int(kv['ret']); tc = mono[idx]
             if ret == -99999: continue
             pending = en is not None and en['idx'] < idx and en['removed'] is None and not any(f[0] < idx for f in en['fires']) \
                 and not (en['owner'] in gone and gone[en['owner']] < idx and False)
@@ -164,7 +181,7 @@ def check(plan, res):
                 if ret != -1:
                     v.append(Violation(PROP, 'time-left', '%s of %s which is not pending returned %d' % (w[0], w[2], ret), PROP + '/time-left/found-but-not-pending'))
         elif w[0] in ('RCN', 'FCN'):
-            ret = int(kv['ret']); tc = int(kv['t'])
+            ret = int(kv['ret']); tc = mono[idx]
             cands = [en for en in entries.values() if en['owner'] == w[1] and en['fn'] == w[2] and en['idx'] < idx and en['removed'] is None
                      and not any(f[0] < idx for f in en['fires'])]
             if any(en['ambig'] for en in cands):
